@@ -542,8 +542,13 @@ def no_shared_scratch(ctx: Ctx) -> None:
     ctx.floor("methods of shareable parser/serializer classes", n, 60)
     # per-call state is created inside the call: handler (queue, objects) in NodeParser.parse, writer in XmlSerializer.write
     np_ = ctx.repo.func("xsdata.formats.dataclass.parsers.bases:NodeParser.parse")
-    ctx.ob("NodeParser.parse creates the handler (queue, objects) per call", A("_=self.handler(clazz=_,parser=self)") in asrc(np_), at=np_, construct="per-call handler", msg="handler kept on the parser")
+    hcalls = [c for c in calls_in(np_.node) if unparse(c.func) == "self.handler"]
+    kept = [tgt for st, tgt, v in stores(np_.node) if is_self_attr(tgt) and isinstance(v, ast.Call) and unparse(v.func) == "self.handler"]
+    ctx.ob("NodeParser.parse creates the handler (queue, objects) per call", len(hcalls) >= 1 and not kept, at=np_, construct="per-call handler", msg="handler kept on the parser")
     xh = ctx.repo.func("xsdata.formats.dataclass.parsers.mixins:XmlHandler.__init__")
-    ctx.ob("XmlHandler.__init__ creates fresh queue / objects lists", A("self.queue:list=[]") in asrc(xh) and A("self.objects:list=[]") in asrc(xh), at=xh, construct="fresh queue", msg="queue shared between handlers")
+    fresh = {tgt.attr for st, tgt, v in stores(xh.node) if is_self_attr(tgt) and (isinstance(v, ast.List) and not v.elts or (isinstance(v, ast.Call) and unparse(v.func) == "list" and not v.args))}
+    ctx.ob("XmlHandler.__init__ creates fresh queue / objects lists", {"queue", "objects"} <= fresh, at=xh, construct="fresh queue", msg="queue shared between handlers")
     xw = ctx.repo.func("xsdata.formats.dataclass.serializers.xml:XmlSerializer.write")
-    ctx.ob("XmlSerializer.write creates the writer per call", A("_=self.writer(config=self.config,output=_,ns_map=") in asrc(xw), at=xw, construct="per-call writer", msg="writer kept on the serializer")
+    wcalls = [c for c in calls_in(xw.node) if unparse(c.func) == "self.writer"]
+    kept = [tgt for st, tgt, v in stores(xw.node) if is_self_attr(tgt) and isinstance(v, ast.Call) and unparse(v.func) == "self.writer"]
+    ctx.ob("XmlSerializer.write creates the writer per call", len(wcalls) >= 1 and not kept, at=xw, construct="per-call writer", msg="writer kept on the serializer")
